@@ -180,6 +180,7 @@ func init() {
 		r.block(fr, "settle", func() bool { return len(r.runnable(g)) == 0 })
 		return nil
 	}
+	harnessAPI["vWatchdog"] = func(r *Run, fr *frame, args []Value) Value { return nil }
 	harnessAPI["vLiveGoroutines"] = func(r *Run, fr *frame, args []Value) Value {
 		n := 0
 		for _, g := range r.gs {
